@@ -22,7 +22,7 @@ COMPONENTS = E1_COMPONENTS
 ASSUMPTIONS = E1_ASSUMPTIONS + [
     "pattern forms: NAME, NAME/, single-component globs, **/NAME[/], absolute paths with optional final-component "
     "glob; relative patterns with an inner slash are not generated (their anchor is not fixed by the statement)"]
-PROBES = ["ancestor_named_like_pattern", "two_excluded_siblings_adjacent", "two_excluded_siblings_separated", "root_excluded",
+PROBES = ["dir_and_file_share_a_name", "ancestor_named_like_pattern", "two_excluded_siblings_adjacent", "two_excluded_siblings_separated", "root_excluded",
           "dir_emptied_by_exclusion", "abs_pattern", "pattern_from_cli", "pattern_from_sfile",
           "pattern_from_user_config", "excluded_dir_with_content", "nonrecursive", "auto_exclude_off"]
 
@@ -37,6 +37,7 @@ def swarm(rng, tier):
         "tree": rng.choice(["wide", "deep", "small"]),
         "variants": 4 if tier == "quick" else 6,
         "allow_root": rng.random() < 0.5,
+        "twin_names": rng.random() < 0.25,
     }
 
 
@@ -67,6 +68,22 @@ def strategy(cfg):
             form = draw(st.sampled_from([cand, "**/" + cand]))
             if form not in pats:
                 pats.append(form)
+        if cfg.get("twin_names") and cand is None:
+            # the same name once as a directory and once as a plain file, in different directories; NAME/ must
+            # exclude the one and not the other; bare (slash-free) patterns only
+            dirs_ = sorted(d for d in refs.tree_dirs(site.tree) if d)
+            if dirs_:
+                d = draw(st.sampled_from(dirs_))
+                dname = posixpath.basename(d)
+                homes = [h for h in sorted(refs.tree_dirs(site.tree)) if h != posixpath.dirname(d)
+                         and posixpath.join(h, dname) not in site.tree and h != d and not h.startswith(d + "/")]
+                if homes:
+                    h = draw(st.sampled_from(homes))
+                    site.tree[posixpath.join(h, dname)] = "set(zqtwin 1)\n" if refs.is_cmake(dname) else \
+                        f"a plain file named like the directory {dname}\n"
+                    pats = [p for p in pats if "/" not in p.rstrip("/") and not p.startswith("{BASE}")]
+                    if dname + "/" not in pats and gen.pattern_ok(dname + "/") and not gen.hits_ancestor(dname + "/", site):
+                        pats.append(dname + "/")
         recursive = draw(st.sampled_from([True, True, True, False]))
         files = gen.base_files(site)
         files["cfg"] = None
@@ -151,6 +168,10 @@ def evaluate(spec, ctx):
         anc_hits = ig.ancestor_component_hits()
         if anc_hits:
             ctx.probes["ancestor_named_like_pattern"] += 1
+        dnames = {posixpath.basename(r) for r, c in tree.items() if c is None}
+        if any(c is not None and posixpath.basename(r) in dnames and (posixpath.basename(r) + "/") in spec["patterns"]
+               for r, c in tree.items()):
+            ctx.probes["dir_and_file_share_a_name"] += 1
         if ig.root_excluded():
             ctx.probes["root_excluded"] += 1
         if any(p.startswith("/") for p in pats):
